@@ -1,5 +1,5 @@
 import Driver.Loop
-import Midgard.Model.Writers
+import Midgard.Model.WriterFiles
 
 /-! Driver for C17 (text travels hex-encoded; `.` = empty, `-` = absent).
 
@@ -15,9 +15,15 @@ import Midgard.Model.Writers
   c17 tmsdata <col,…> <epoch|epoch…>          epoch = <int>@env
   c17 blocks <0|1> <0|1> <0|1>                markers of the blocks written + balanced flag
   c17 csv <fmt,…> <row|row…>                  fmt = s | d | f<prec>;  row = <hexdate>@value;value…
+  c17 crdfile <hextext,…> <0|1> <stations>    the whole file (header texts: solution, stamp, datum, epoch) → hex | err
+  c17 crdrange <hextext,…> <0|1> <stations>   the range predicate of `crd_file_roundtrip` → 1 | 0
+  c17 velfile <hextext,…> <0|1> <stations>    (solution, stamp, datum)
+  c17 clufile <hextext,…> <hexkey,…>          (solution, stamp)
+  c17 clurange <hextext,…> <hexkey,…>         the range predicate of `clu_file_roundtrip` → 1 | 0
+  c17 crdparse <hexfile>   c17 cluparse <hexfile>     rows `|`-separated, values `;`-separated: f:<rat> | f:nan | u:<hex>
 -/
 namespace Driver.C17
-open Midgard.Proto Midgard.Writers Midgard.WriterCells Midgard.Generated.WriterLayouts
+open Midgard.Proto Midgard.Writers Midgard.WriterCells Midgard.Generated.WriterLayouts Midgard.WriterFiles
 
 def hexOf (s : List Char) : String := encodeHex (String.ofList s)
 
@@ -107,7 +113,51 @@ partial def conforms : List Cell → List Char → Bool
       (List.range (n + 1)).any fun k => (t.toList.isPrefixOf (rest.drop k)) && conforms cs (rest.drop k)
     | _ => (List.range (rest.length + 1)).any fun k => conforms cs (rest.drop k)
 
+def showField : FieldVal → String
+  | .f8 (some q) => "f:" ++ showRat q
+  | .f8 none => "f:nan"
+  | .u t => "u:" ++ (if t.isEmpty then "." else hexOf t)
+
+def showRows (rows : List (List FieldVal)) : String :=
+  if rows.isEmpty then "[]" else "|".intercalate (rows.map fun r => ";".intercalate (r.map showField))
+
+def showFile : Option (List Char) → String
+  | none => "err"
+  | some t => hexOf t
+
+def parseTexts? (s : String) : Option (List (List Char)) :=
+  (parseList? (fun x => if x = "." then some "" else decodeHex? x) s).map fun l => l.map String.toList
+
 def handle : List String → Option String
+  | ["c17", "crdfile", texts, nan, sts] => do
+    let ts ← parseTexts? texts
+    let nan ← parseBool? nan
+    let sts ← parseList? parseStation? sts
+    pure (showFile (crdFile ts nan sts))
+  | ["c17", "crdrange", texts, nan, sts] => do
+    let ts ← parseTexts? texts
+    let nan ← parseBool? nan
+    let sts ← parseList? parseStation? sts
+    pure (showBool (crdInRange ts nan sts))
+  | ["c17", "velfile", texts, nan, sts] => do
+    let ts ← parseTexts? texts
+    let nan ← parseBool? nan
+    let sts ← parseList? parseStation? sts
+    pure (showFile (velFile ts nan sts))
+  | ["c17", "clufile", texts, keys] => do
+    let ts ← parseTexts? texts
+    let ks ← parseList? decodeHex? keys
+    pure (showFile (cluFile ts (ks.map String.toList)))
+  | ["c17", "clurange", texts, keys] => do
+    let ts ← parseTexts? texts
+    let ks ← parseList? decodeHex? keys
+    pure (showBool (cluInRange ts (ks.map String.toList)))
+  | ["c17", "crdparse", hx] => do
+    let t ← decodeHex? hx
+    pure (showRows (crdParse t.toList))
+  | ["c17", "cluparse", hx] => do
+    let t ← decodeHex? hx
+    pure (showRows (cluParse t.toList))
   | ["c17", "row", w, line, env] => do
     let line ← line.toNat?
     let env ← parseEnv? env
